@@ -745,6 +745,103 @@ fn main() {{
             ),
         ),
         (
+            // the two arguments of the call in field! are coerced at different points of inference:
+            // an unsizing coercion that is still ambiguous falls back to a deref coercion for the
+            // reference, while the cast is checked last and passes as an unsizing cast
+            "field! with an ambiguous unsizing coercion that falls back to a user Deref impl".into(),
+            body(
+                "trait Super<X> {}\ntrait Sub<'gc>: Super<u8> + Super<u16> { fn other(&self) -> Gc<'gc, S<'gc, dyn Super<u8> + 'gc>>; }\n#[derive(Collect)]\n#[collect(no_drop)]\nstruct S<'gc, T: ?Sized> { slot: Lock<Option<C<'gc>>>, tail: T }\n#[derive(Collect)]\n#[collect(no_drop)]\nstruct Outer<F: ?Sized> { f: F }\nimpl<'gc> std::ops::Deref for S<'gc, dyn Sub<'gc> + 'gc> { type Target = S<'gc, dyn Super<u8> + 'gc>; fn deref(&self) -> &Self::Target { self.tail.other().as_ref() } }\n#[derive(Collect)]\n#[collect(no_drop)]\nstruct C2;\nimpl Super<u8> for C2 {}\n#[derive(Collect)]\n#[collect(no_drop)]\nstruct C1<'gc> { other: Gc<'gc, S<'gc, dyn Super<u8> + 'gc>> }\nimpl<'gc> Super<u8> for C1<'gc> {}\nimpl<'gc> Super<u16> for C1<'gc> {}\nimpl<'gc> Sub<'gc> for C1<'gc> { fn other(&self) -> Gc<'gc, S<'gc, dyn Super<u8> + 'gc>> { self.other } }\n#[derive(Collect)]\n#[collect(no_drop)]\nstruct Root<'gc> { holder: Gc<'gc, Outer<S<'gc, dyn Sub<'gc> + 'gc>>>, victim: Gc<'gc, S<'gc, dyn Super<u8> + 'gc>> }\nfn through<'a, 'gc>(w: &'a Write<Outer<S<'gc, dyn Sub<'gc> + 'gc>>>) -> &'a Write<S<'gc, dyn Super<u8> + 'gc>> { let r: &Write<S<'gc, dyn Super<_> + 'gc>> = field!(w, Outer, f); r }",
+                "{ let victim: Gc<'_, S<'_, dyn Super<u8> + '_>> = gc_arena::unsize!(Gc::new(mc, S { slot: Lock::new(None), tail: C2 }) => S<'_, dyn Super<u8> + '_>); let holder: Gc<'_, Outer<S<'_, dyn Sub<'_> + '_>>> = gc_arena::unsize!(Gc::new(mc, Outer { f: S { slot: Lock::new(None), tail: C1 { other: victim } } }) => Outer<S<'_, dyn Sub<'_> + '_>>); Root { holder, victim } }",
+                "let w = Gc::write(mc, root.holder); let v = through(w); field!(v, S, slot).unlock().set(Some(child));",
+                "root.victim.slot.get().is_some() || root.holder.f.slot.get().is_some()",
+            ),
+        ),
+        (
+            "field! with an unambiguous unsizing coercion (control)".into(),
+            body(
+                "trait Super<X> {}\n#[derive(Collect)]\n#[collect(no_drop)]\nstruct S<'gc, T: ?Sized> { slot: Lock<Option<C<'gc>>>, tail: T }\n#[derive(Collect)]\n#[collect(no_drop)]\nstruct Outer<F: ?Sized> { f: F }\n#[derive(Collect)]\n#[collect(no_drop)]\nstruct C2;\nimpl Super<u8> for C2 {}\n#[derive(Collect)]\n#[collect(no_drop)]\nstruct Root<'gc> { holder: Gc<'gc, Outer<S<'gc, C2>>> }\nfn through<'a, 'gc>(w: &'a Write<Outer<S<'gc, C2>>>) -> &'a Write<S<'gc, dyn Super<u8> + 'gc>> { let r: &Write<S<'gc, dyn Super<u8> + 'gc>> = field!(w, Outer, f); r }",
+                "Root { holder: Gc::new(mc, Outer { f: S { slot: Lock::new(None), tail: C2 } }) }",
+                "let w = Gc::write(mc, root.holder); let v = through(w); field!(v, S, slot).unlock().set(Some(child));",
+                "root.holder.f.slot.get().is_some()",
+            ),
+        ),
+        (
+            // the internal arms of the exported macro are as callable as its documented forms
+            "dyn_collect! internal @emit arm called directly on a sized type".into(),
+            body(
+                "struct H<'a>(Cell<Option<C<'a>>>);\ntrait Decoy<'gc> { fn trace<_T: gc_arena::collect::Trace<'gc>>(&self, cc: &mut _T); }\ngc_arena::collect::dyn_collect!(@emit [] [H<'gc>] [Self: Sized { fn trace<T: gc_arena::collect::Trace<'gc>>(&self, cc: &mut T) { if let Some(p) = self.0.get() { cc.trace_gc(Gc::erase(p)); } } } impl<'gc> Decoy<'gc> for H<'gc>]);\n#[derive(Collect)]\n#[collect(no_drop)]\nstruct Root<'gc> { h: Gc<'gc, H<'gc>> }",
+                "Root { h: Gc::new(mc, H(Cell::new(None))) }",
+                "root.h.0.set(Some(child));",
+                "root.h.0.get().is_some()",
+            ),
+        ),
+        (
+            "dyn_collect! internal @emit arm called directly, body injected for a trait object".into(),
+            body(
+                "trait Tr<'gc>: 'gc + gc_arena::collect::DynCollect<'gc> { fn slot(&self) -> Gc<'gc, Lock<Option<C<'gc>>>>; }\n#[derive(Collect)]\n#[collect(no_drop)]\nstruct Im<'gc>(Gc<'gc, Lock<Option<C<'gc>>>>);\nimpl<'gc> Tr<'gc> for Im<'gc> { fn slot(&self) -> Gc<'gc, Lock<Option<C<'gc>>>> { self.0 } }\ntrait Decoy<'gc> { fn trace<_T: gc_arena::collect::Trace<'gc>>(&self, cc: &mut _T); }\ngc_arena::collect::dyn_collect!(@emit [] [dyn Tr<'gc>] ['gc: 'gc { fn trace<T: gc_arena::collect::Trace<'gc>>(&self, _cc: &mut T) {} } impl<'gc> Decoy<'gc> for u8]);\n#[derive(Collect)]\n#[collect(no_drop)]\nstruct Root<'gc> { b: Box<dyn Tr<'gc> + 'gc> }",
+                "Root { b: Box::new(Im(Gc::new(mc, Lock::new(None)))) }",
+                "root.b.slot().set(mc, Some(child));",
+                "true",
+            ),
+        ),
+        (
+            "dyn_collect! internal @split arm called directly on a sized type".into(),
+            body(
+                "struct H<'a>(Cell<Option<C<'a>>>);\ngc_arena::collect::dyn_collect!(@split [] [H<'gc>]);\n#[derive(Collect)]\n#[collect(no_drop)]\nstruct Root<'gc> { h: Gc<'gc, H<'gc>> }",
+                "Root { h: Gc::new(mc, H(Cell::new(None))) }",
+                "root.h.0.set(Some(child));",
+                "root.h.0.get().is_some()",
+            ),
+        ),
+        (
+            "dyn_collect! internal @bounds arm called directly on a sized type".into(),
+            body(
+                "struct H<'a>(Cell<Option<C<'a>>>);\ngc_arena::collect::dyn_collect!(@bounds [] [H<'gc>] [Self: Sized]);\n#[derive(Collect)]\n#[collect(no_drop)]\nstruct Root<'gc> { h: Gc<'gc, H<'gc>> }",
+                "Root { h: Gc::new(mc, H(Cell::new(None))) }",
+                "root.h.0.set(Some(child));",
+                "root.h.0.get().is_some()",
+            ),
+        ),
+        (
+            // `&'static T` is Collect (and never traced) only for T: 'static
+            "Write::from_static on a &'static root that holds a Lock of a pointer".into(),
+            body(
+                "type Root<'gc> = &'static Lock<Option<C<'gc>>>;",
+                "&*Box::leak(Box::new(Lock::new(None)))",
+                "let slot: &Write<Lock<Option<C<'_>>>> = Write::from_static(*root); slot.unlock().set(Some(child));",
+                "root.get().is_some()",
+            ),
+        ),
+        (
+            "Write::from_static on a &'static reference inside a tuple root".into(),
+            body(
+                "type Root<'gc> = (u8, &'static Lock<Option<C<'gc>>>);",
+                "(0u8, &*Box::leak(Box::new(Lock::new(None))))",
+                "let slot: &Write<Lock<Option<C<'_>>>> = Write::from_static(root.1); slot.unlock().set(Some(child));",
+                "root.1.get().is_some()",
+            ),
+        ),
+        (
+            // KNOWN FINDING (KNOWN_FINDINGS.txt, signature non-wf-root-implies-static): a root type that
+            // is well-formed only if 'gc: 'static hands that bound to every callback
+            "non-wf-root-implies-static: Write::from_static on a &'static reference behind a Gc".into(),
+            body(
+                "type Root<'gc> = Gc<'gc, &'static Lock<Option<C<'gc>>>>;",
+                "{ let l: &'static Lock<Option<C<'_>>> = &*Box::leak(Box::new(Lock::new(None))); Gc::new(mc, l) }",
+                "let slot: &Write<Lock<Option<C<'_>>>> = Write::from_static(**root); slot.unlock().set(Some(child));",
+                "root.get().is_some()",
+            ),
+        ),
+        (
+            "non-wf-root-implies-static: Write::from_static with a PhantomData marker in the root".into(),
+            body(
+                "type Root<'gc> = (std::marker::PhantomData<&'static Gc<'gc, ()>>, Gc<'gc, Lock<Option<C<'gc>>>>);",
+                "(std::marker::PhantomData, Gc::new(mc, Lock::new(None)))",
+                "let slot: &Write<Lock<Option<C<'_>>>> = Write::from_static(&*root.1); slot.unlock().set(Some(child));",
+                "root.1.get().is_some()",
+            ),
+        ),
+        (
             "Lock::take needs no barrier and adopts nothing".into(),
             body(
                 "#[derive(Collect)]\n#[collect(no_drop)]\nstruct Root<'gc> { c: Gc<'gc, Lock<Option<C<'gc>>>> }",
